@@ -436,6 +436,32 @@ func init() {
 		Post: heldPost,
 	})
 	eng.Register(&eng.Scenario{
+		Name: "cc-panic-cb", Props: []string{"C15"}, MustFinish: true, ObsNames: stdObs,
+		Doc:   "CContainer: a SwapValue callback panics (its caller recovers) while a WaitValue waiter is parked and another writer sets 2: the cell stays usable - the waiter returns 2, GetValue/SetValue/SwapValue afterwards do not block and see the last write",
+		Quick: eng.Bounds{PB: 2}, Thorough: eng.Bounds{PB: 3},
+		Body: func() {
+			c := ccontainer.NewCContainer[int](0)
+			T("W", func() { ccWait(c, 1, wValue, 0, nil, bg, nil) })
+			T("P", func() {
+				defer func() { recover() }()
+				c.SwapValue(func(v int) int { panic("callback failed") })
+			})
+			T("A", func() { vsched.Observe(oOp, 2, 0, 0); c.SetValue(2) })
+			vsched.Settle()
+			if n := vsched.CountParked("WaitValue"); n > 0 {
+				fail("C15.waiter-stuck", "WaitValue still parked although the cell was set to 2 (a SwapValue callback had panicked)")
+				return
+			}
+			if v := c.GetValue(); v != 2 {
+				fail("C15.lost-update", "GetValue() = %d after SetValue(2)", v)
+			}
+			if v := swapTo(c, func(v int) int { return v + 1 }); v != 3 {
+				fail("C15.lost-update", "SwapValue(+1) returned %d, want 3", v)
+			}
+		},
+		Post: heldPost,
+	})
+	eng.Register(&eng.Scenario{
 		Name: "cc-errch", Props: []string{"C15"}, ObsNames: stdObs,
 		Doc:   "CContainer: WaitValue with a cancellable context and an error channel; a sender delivers {error, nil, close} (choice), a canceller cancels, a writer may set the value; the returned error must come from a source that fired",
 		Quick: eng.Bounds{PB: 2}, Thorough: eng.Bounds{PB: 3},
